@@ -2,7 +2,7 @@
 IMPL: array::conv1d/conv2d (view::convnd), index::shape_pool2d/slice_pool2d, view::pool2d, array::max_pool2d/avg_pool2d,
 softmax/softmin, batch/layer/instance/group norm, linear, bilinear, pairwise_distance, cosine_similarity.
 ORACLE: lib/nn_ref_c17.py (nested loops from the PyTorch documentation formulas; no PyTorch in this sandbox)."""
-import itertools, math, os, sys, zlib
+import itertools, math, os, struct, sys, zlib
 import numpy as np
 from runner import Case
 from shapes import prod, fmt, all_idx
@@ -89,10 +89,17 @@ def parse_res(s):
         shp = a.split('=', 1)[1]
         dat = b.split('=', 1)[1]
         shape = [] if shp == '[]' else [int(t) for t in shp.split(',')]
-        data = [] if dat == '[]' else [float(t) for t in dat.split(',')]
+        data = [] if dat == '[]' else [fval(t) for t in dat.split(',')]
         return shape, data
     except Exception:
         return None
+
+
+def fval(t):
+    """one data token: decimal, or `b<bits>` = the IEEE-754 float32 bit pattern the Lean driver prints (exact)"""
+    if t.startswith('b'):
+        return struct.unpack('<f', struct.pack('<I', int(t[1:])))[0]
+    return float(t)
 
 
 EPS32 = 2.0 ** -23
@@ -367,11 +374,11 @@ def gen_pool(tier, rng):
                                     x = rints(rng, n, -9, 9)
                                     xa = np.array(x).reshape(shape)
                                     mx = ref.pool2d(xa, [kh, kw], [sh, sw], bool(ceil), 'max')
-                                    c = Case('max_pool2d dt=%s xs=%s x=%s %s' % (dt, fmt(shape), fmt(x), com), H_POOL, oracle=fres(mx), model=False,
+                                    c = Case('max_pool2d dt=%s xs=%s x=%s %s' % (dt, fmt(shape), fmt(x), com), H_POOL, oracle=fres(mx),
                                              nontrivial=nt, tags=tags + ['max_pool2d', 'dt=' + dt])
                                     yield c
                                     av = ref.pool2d(xa, [kh, kw], [sh, sw], bool(ceil), 'avg')
-                                    c = Case('avg_pool2d dt=%s xs=%s x=%s %s' % (dt, fmt(shape), fmt(x), com), H_POOL, oracle=fres(av), model=False,
+                                    c = Case('avg_pool2d dt=%s xs=%s x=%s %s' % (dt, fmt(shape), fmt(x), com), H_POOL, oracle=fres(av),
                                              nontrivial=nt, tags=tags + ['avg_pool2d', 'dt=' + dt], cmp=close_cmp(kh * kw + 2, 9.0))
                                     yield c
 
